@@ -56,6 +56,10 @@ CHECKS['C18'] = dict(
     text='A real SvsInst on a real appv2 NDNApp over a recording face runs generated histories (vectors newer/older/incomparable/unknown nodes/too much for self/malformed, publications, clock advances to just before/after the suppression and periodic deadlines) on a virtual clock; a reference state machine computes the expected merge, callback and emission decisions (due instants read from the public next_sync_timing); emitted sync Interests are decoded from the face output and must carry the full vector.',
     design_ref='DESIGN.md 3/C18', technique='runtime monitor against an executable reference state machine on a virtual-time loop (timer schedule control)',
     note='suppression entry is read from the instance; vectors with a malformed entry may be merged without it or ignored; jitter source seeded.')
+CHECKS['C20'] = dict(
+    text='read_client_conf() is compared with a small reference resolver over the complete presence product (3 environment variables x candidate-file layouts x key subsets x location kinds) inside a sandbox HOME; an audit hook (sys.addaudithook) records which candidate files are opened; default_face is checked over supported and unsupported URIs, default_keychain over resolved locations.',
+    design_ref='DESIGN.md 3/C20', technique='runtime differential monitor against a reference resolver + audit-hook file-access monitor over an enumerated configuration space',
+    note='the platform candidate path list is redirected into the sandbox by a harness wrapper; values with % / several colons are outside the generated domain.')
 _ALL = ['C%02d' % i for i in range(1, 21)]
 for _p in _ALL:
     if _p not in CHECKS:
